@@ -605,7 +605,7 @@ def year_month_years(ctx, c):
     rng = ctx.rng
     ys = {c.min_year, c.min_year + 1, c.max_year - 1, c.max_year, (c.min_year + c.max_year) // 2}
     ys |= {y for y in (-1, 0, 1, 2) if c.min_year <= y <= c.max_year}
-    n = ctx.scale(24, 600)
+    n = min(ctx.scale(24, 600), c.max_year - c.min_year + 1)     # Um Al Qura has 183 years
     while len(ys) < n:
         ys.add(rng.randint(c.min_year, c.max_year))
     return sorted(ys)
